@@ -1137,3 +1137,48 @@ theorem write_completes_unless_blocked_or_failed (c : Conn) :
 (`bufferSize` + the sender's own slot), the other 7 are refused and counted -/
 example : (accepted {} ((List.range 40).map fun i => Act.send [i] true)).length = 33
     ∧ (execAll {} ((List.range 40).map fun i => Act.send [i] true)).w.rejected = 7 := by decide
+
+/-! ## end to end: one hickory stream writing, another one reading -/
+
+/-- **End to end, complete.**  Connection `A` (fresh, any read script `rsA`, any acceptance script
+`ws` of its socket: partial writes, `pending`s, `accept 0`) is handed the non-empty messages `ms`
+(each below 65 536 bytes, at most `bufferSize + 1` of them without a poll in between) and is polled
+until it stops.  Connection `B` (fresh) reads — under *any* chunking `s`, with any `pending`s in
+between and any ending — exactly the bytes `A`'s socket accepted.  If `A` stopped with no message
+half-sent, then `B` delivers exactly `ms`: each one whole, in order, once; and then ends cleanly /
+with an error / waits according to how `s` ends.  Both halves are the code's own state machines
+(`pollNext`); nothing is assumed about how the network cuts the byte stream. -/
+theorem end_to_end (rsA : List REv) (ws : List WEv) (vecA vecB : Bool) (ms : List Bytes)
+    (hms : ∀ m ∈ ms, Framable m) (hcap : ms.length ≤ bufferSize + 1) (s : List REv)
+    (hdone : (drain (execAll { vec := vecA, rs := rsA, w := { ws := ws } } (ms.map (Act.send · true)))).2.w.send = none)
+    (hs : bytesOf s =
+      (drain (execAll { vec := vecA, rs := rsA, w := { ws := ws } } (ms.map (Act.send · true)))).2.w.written) :
+    obs (drain (fresh s vecB)).1 =
+      (ms, match endingOf s with | .eof => .clean | .err => .error | .open => .blocked) := by
+  have hw := (write_bytes_drained rsA ws vecA ms hcap).2 hdone
+  rw [wframes_eq_frames ms (fun m hm => (hms m hm).2)] at hw
+  exact read_frames s vecB ms hms (hs.trans hw)
+
+/-- **End to end, at any moment.**  Same setting without the assumption that `A` finished: whatever
+`A`'s socket has accepted so far (it may have blocked or failed in the middle of a frame), and however
+those bytes are chunked on the way, `B` delivers a prefix of `ms` — never a truncated, merged,
+duplicated or invented message. -/
+theorem end_to_end_prefix (rsA : List REv) (ws : List WEv) (vecA vecB : Bool) (ms : List Bytes)
+    (hms : ∀ m ∈ ms, Framable m) (hcap : ms.length ≤ bufferSize + 1) (s : List REv)
+    (hs : bytesOf s =
+      (drain (execAll { vec := vecA, rs := rsA, w := { ws := ws } } (ms.map (Act.send · true)))).2.w.written) :
+    (obs (drain (fresh s vecB)).1).1 <+: ms := by
+  have hw := (write_bytes_drained rsA ws vecA ms hcap).1
+  rw [wframes_eq_frames ms (fun m hm => (hms m hm).2)] at hw
+  exact no_truncated_merged_duplicated (fresh s vecB) rfl ms hms (by rw [show (fresh s vecB).rs = s from rfl, hs]; exact hw)
+
+
+/- Non-vacuity of `end_to_end`: its hypothesis `hdone` holds for every run of `A` that does not end
+with a socket half blocked for ever or failed (`write_completes_unless_blocked_or_failed`), `hcap` and
+`hms` are met by `[[97], [98, 99]]` (`by simp [Framable]`, `by decide`), and `hs` by any script whose
+data events concatenate to the written bytes (`bytesOf`).  `drain` is defined by well-founded
+recursion, so a closed instance cannot be evaluated by `decide`; the correspondence run executes such
+instances on the real `TcpStream` (families `burst`, `prog`, `wr` of harness/src/props/c17.rs). -/
+example : (∀ m ∈ [[97], [98, 99]], Framable m) ∧ [[97], [98, 99]].length ≤ bufferSize + 1 ∧
+    bytesOf [.data [0], .pending, .data [1, 97, 0], .data [2, 98], .data [99], .eof] = frames [[97], [98, 99]] :=
+  ⟨by simp [Framable], by decide, by decide⟩
